@@ -18,48 +18,48 @@ func pt(kind string, obj interface{}) {
 
 type Bool struct{ v ratomic.Bool }
 
-func (b *Bool) Load() bool             { pt("a.Load", b); return b.v.Load() }
-func (b *Bool) Store(x bool)           { pt("a.Store", b); b.v.Store(x) }
-func (b *Bool) Swap(x bool) bool       { pt("a.Swap", b); return b.v.Swap(x) }
+func (b *Bool) Load() bool                    { pt("a.Load", b); return b.v.Load() }
+func (b *Bool) Store(x bool)                  { pt("a.Store", b); b.v.Store(x) }
+func (b *Bool) Swap(x bool) bool              { pt("a.Swap", b); return b.v.Swap(x) }
 func (b *Bool) CompareAndSwap(o, n bool) bool { pt("a.CAS", b); return b.v.CompareAndSwap(o, n) }
 
 type Int32 struct{ v ratomic.Int32 }
 
-func (b *Int32) Load() int32           { pt("a.Load", b); return b.v.Load() }
-func (b *Int32) Store(x int32)         { pt("a.Store", b); b.v.Store(x) }
-func (b *Int32) Add(x int32) int32     { pt("a.Add", b); return b.v.Add(x) }
-func (b *Int32) Swap(x int32) int32    { pt("a.Swap", b); return b.v.Swap(x) }
+func (b *Int32) Load() int32                    { pt("a.Load", b); return b.v.Load() }
+func (b *Int32) Store(x int32)                  { pt("a.Store", b); b.v.Store(x) }
+func (b *Int32) Add(x int32) int32              { pt("a.Add", b); return b.v.Add(x) }
+func (b *Int32) Swap(x int32) int32             { pt("a.Swap", b); return b.v.Swap(x) }
 func (b *Int32) CompareAndSwap(o, n int32) bool { pt("a.CAS", b); return b.v.CompareAndSwap(o, n) }
 
 type Int64 struct{ v ratomic.Int64 }
 
-func (b *Int64) Load() int64           { pt("a.Load", b); return b.v.Load() }
-func (b *Int64) Store(x int64)         { pt("a.Store", b); b.v.Store(x) }
-func (b *Int64) Add(x int64) int64     { pt("a.Add", b); return b.v.Add(x) }
-func (b *Int64) Swap(x int64) int64    { pt("a.Swap", b); return b.v.Swap(x) }
+func (b *Int64) Load() int64                    { pt("a.Load", b); return b.v.Load() }
+func (b *Int64) Store(x int64)                  { pt("a.Store", b); b.v.Store(x) }
+func (b *Int64) Add(x int64) int64              { pt("a.Add", b); return b.v.Add(x) }
+func (b *Int64) Swap(x int64) int64             { pt("a.Swap", b); return b.v.Swap(x) }
 func (b *Int64) CompareAndSwap(o, n int64) bool { pt("a.CAS", b); return b.v.CompareAndSwap(o, n) }
 
 type Uint32 struct{ v ratomic.Uint32 }
 
-func (b *Uint32) Load() uint32         { pt("a.Load", b); return b.v.Load() }
-func (b *Uint32) Store(x uint32)       { pt("a.Store", b); b.v.Store(x) }
-func (b *Uint32) Add(x uint32) uint32  { pt("a.Add", b); return b.v.Add(x) }
-func (b *Uint32) Swap(x uint32) uint32 { pt("a.Swap", b); return b.v.Swap(x) }
+func (b *Uint32) Load() uint32                    { pt("a.Load", b); return b.v.Load() }
+func (b *Uint32) Store(x uint32)                  { pt("a.Store", b); b.v.Store(x) }
+func (b *Uint32) Add(x uint32) uint32             { pt("a.Add", b); return b.v.Add(x) }
+func (b *Uint32) Swap(x uint32) uint32            { pt("a.Swap", b); return b.v.Swap(x) }
 func (b *Uint32) CompareAndSwap(o, n uint32) bool { pt("a.CAS", b); return b.v.CompareAndSwap(o, n) }
 
 type Uint64 struct{ v ratomic.Uint64 }
 
-func (b *Uint64) Load() uint64         { pt("a.Load", b); return b.v.Load() }
-func (b *Uint64) Store(x uint64)       { pt("a.Store", b); b.v.Store(x) }
-func (b *Uint64) Add(x uint64) uint64  { pt("a.Add", b); return b.v.Add(x) }
-func (b *Uint64) Swap(x uint64) uint64 { pt("a.Swap", b); return b.v.Swap(x) }
+func (b *Uint64) Load() uint64                    { pt("a.Load", b); return b.v.Load() }
+func (b *Uint64) Store(x uint64)                  { pt("a.Store", b); b.v.Store(x) }
+func (b *Uint64) Add(x uint64) uint64             { pt("a.Add", b); return b.v.Add(x) }
+func (b *Uint64) Swap(x uint64) uint64            { pt("a.Swap", b); return b.v.Swap(x) }
 func (b *Uint64) CompareAndSwap(o, n uint64) bool { pt("a.CAS", b); return b.v.CompareAndSwap(o, n) }
 
 type Pointer[T any] struct{ v ratomic.Pointer[T] }
 
-func (p *Pointer[T]) Load() *T         { pt("a.Load", p); return p.v.Load() }
-func (p *Pointer[T]) Store(x *T)       { pt("a.Store", p); p.v.Store(x) }
-func (p *Pointer[T]) Swap(x *T) *T     { pt("a.Swap", p); return p.v.Swap(x) }
+func (p *Pointer[T]) Load() *T                    { pt("a.Load", p); return p.v.Load() }
+func (p *Pointer[T]) Store(x *T)                  { pt("a.Store", p); p.v.Store(x) }
+func (p *Pointer[T]) Swap(x *T) *T                { pt("a.Swap", p); return p.v.Swap(x) }
 func (p *Pointer[T]) CompareAndSwap(o, n *T) bool { pt("a.CAS", p); return p.v.CompareAndSwap(o, n) }
 
 type Value struct{ v ratomic.Value }
@@ -79,7 +79,19 @@ func StoreInt32(a *int32, v int32)         { pt("a.Store", a); ratomic.StoreInt3
 func StoreInt64(a *int64, v int64)         { pt("a.Store", a); ratomic.StoreInt64(a, v) }
 func StoreUint32(a *uint32, v uint32)      { pt("a.Store", a); ratomic.StoreUint32(a, v) }
 func StoreUint64(a *uint64, v uint64)      { pt("a.Store", a); ratomic.StoreUint64(a, v) }
-func CompareAndSwapInt32(a *int32, o, n int32) bool { pt("a.CAS", a); return ratomic.CompareAndSwapInt32(a, o, n) }
-func CompareAndSwapInt64(a *int64, o, n int64) bool { pt("a.CAS", a); return ratomic.CompareAndSwapInt64(a, o, n) }
-func CompareAndSwapUint32(a *uint32, o, n uint32) bool { pt("a.CAS", a); return ratomic.CompareAndSwapUint32(a, o, n) }
-func CompareAndSwapUint64(a *uint64, o, n uint64) bool { pt("a.CAS", a); return ratomic.CompareAndSwapUint64(a, o, n) }
+func CompareAndSwapInt32(a *int32, o, n int32) bool {
+	pt("a.CAS", a)
+	return ratomic.CompareAndSwapInt32(a, o, n)
+}
+func CompareAndSwapInt64(a *int64, o, n int64) bool {
+	pt("a.CAS", a)
+	return ratomic.CompareAndSwapInt64(a, o, n)
+}
+func CompareAndSwapUint32(a *uint32, o, n uint32) bool {
+	pt("a.CAS", a)
+	return ratomic.CompareAndSwapUint32(a, o, n)
+}
+func CompareAndSwapUint64(a *uint64, o, n uint64) bool {
+	pt("a.CAS", a)
+	return ratomic.CompareAndSwapUint64(a, o, n)
+}
